@@ -156,8 +156,16 @@ def check_case(ctx, net, cfg, tag, seen, perms=None):
     fz = type(cz)._freeze
     node_ok = lambda a, b: all(fz(a.get(k)) == fz(b.get(k)) for k in nk)
     edge_ok = lambda a, b: all(fz(a.get(k)) == fz(b.get(k)) for k in ek)
-    if N <= 9:
-        autos = B.automorphisms(G, node_ok, edge_ok)
+    big_family = 9 < N <= 20 and tag.startswith("family:")
+    if N <= 9 or big_family:
+        if big_family:
+            # larger symmetric families: networkx VF2 on the view (node and edge labels on the selected keys) as reference
+            from networkx.algorithms.isomorphism import DiGraphMatcher, GraphMatcher
+            MM = DiGraphMatcher if G.is_directed() else GraphMatcher
+            autos = list(MM(G, G, node_match=node_ok, edge_match=edge_ok).isomorphisms_iter())
+            ctx.count("vf2_reference_families")
+        else:
+            autos = B.automorphisms(G, node_ok, edge_ok)
         ctx.count("automorphism_count_checked")
         if len(autos) > 1:
             ctx.count("nontrivial_automorphism_groups")
@@ -333,6 +341,14 @@ def symmetric_families():
     fam["star"] = [W.rxn({"X": 1}, {s: 1}) for s in "ABCD"]
     fam["star_stoich"] = [W.rxn({"X": 1}, {s: c}) for s, c in zip("ABCD", (1, 1, 2, 2))]
     fam["k22"] = [W.rxn({a: 1}, {b: 1}) for a in "AB" for b in "CD"]
+    # "X activates Y" reactions 2X + Y >> X + Y (both species on both sides, X with another coefficient on each side):
+    # a triangle with every arc doubled next to a triangle with every arc in both directions - same node profiles,
+    # not isomorphic
+    arc = lambda x, y: W.rxn({x: 2, y: 1}, {x: 1, y: 1})   # noqa: E731
+    fam["activation_triangles"] = [arc("P", "Q"), arc("P", "Q"), arc("Q", "R"), arc("Q", "R"), arc("R", "P"), arc("R", "P"),
+                                   arc("U", "V"), arc("V", "U"), arc("V", "W"), arc("W", "V"), arc("W", "U"), arc("U", "W")]
+    fam["activation_ring_and_pairs"] = [arc("A", "B"), arc("B", "C"), arc("C", "A"), arc("D", "E"), arc("E", "D"), arc("F", "G"), arc("G", "F")]
+    fam["ring2_plus_ring3"] = [W.rxn({"A": 1}, {"B": 1}), W.rxn({"B": 1}, {"A": 1}), W.rxn({"C": 1}, {"D": 1}), W.rxn({"D": 1}, {"E": 1}), W.rxn({"E": 1}, {"C": 1})]
     return fam
 
 
@@ -340,9 +356,11 @@ def run(ctx):
     install(ctx.seed * 131 + ctx.shard)
     rng = ctx.rng
     seen = {}
-    if ctx.shard == 0:
-        for name, net in symmetric_families().items():
-            for cfg in CONFIGS:
+    k_f = 0
+    for name, net in symmetric_families().items():
+        for cfg in CONFIGS:
+            k_f += 1
+            if ctx.mine(k_f):
                 check_case(ctx, net, cfg, "family:" + name, seen)
     idx = 0
     coeffs = (0, 1) if ctx.quick else (0, 1, 2)
